@@ -117,6 +117,9 @@ def set_parents(tree: ast.AST) -> None:
             c._parent = n  # type: ignore[attr-defined]
 
 
+_TREE_CACHE: dict = {}
+
+
 class Program:
     def __init__(self, sources: dict[str, str], data_files: dict[str, str] | None = None, root: str = "<memory>"):
         self.root = root
@@ -130,13 +133,19 @@ class Program:
         self.settings: dict[str, object] = {}
         self.settings_unresolved: list[str] = []
         for path, src in sorted(sources.items()):
-            try:
-                tree = ast.parse(src, filename=path)
-            except SyntaxError as e:
-                raise AnalysisError(f"{path}: does not parse: {e}")
-            tree = _Canon().visit(tree)
-            ast.fix_missing_locations(tree)
-            set_parents(tree)
+            key = (path, src)
+            tree = _TREE_CACHE.get(key)
+            if tree is None:
+                try:
+                    tree = ast.parse(src, filename=path)
+                except SyntaxError as e:
+                    raise AnalysisError(f"{path}: does not parse: {e}")
+                tree = _Canon().visit(tree)
+                ast.fix_missing_locations(tree)
+                set_parents(tree)
+                if len(_TREE_CACHE) > 400:
+                    _TREE_CACHE.clear()
+                _TREE_CACHE[key] = tree      # trees are never mutated after loading: variants share the unchanged modules
             self.modules[path] = ModuleInfo(path, src, tree)
         self._index()
         self._load_settings()
